@@ -41,6 +41,9 @@ Forms == [
   turbochain   |-> <<"f", "::", "<", "A", ",", "B", ">", "G(", ".", "m", "G(">>,
   turbofnptr   |-> <<"f", "::", "<", "fn", "G(", "-", ">", "B", ">", "G(">>,
   turbofnptr2  |-> <<"f", "::", "<", "fn", "G(", "-", ">", "B", ",", "A", ">", "G(">>,
+  \* an arrow TWO levels deep in the generic arguments: `f::<M<fn() -> B>, A>()`, `x as M<M<fn() -> K>, V>`
+  turbofnnest  |-> <<"f", "::", "<", "M", "<", "fn", "G(", "-", ">", "B", ">", ",", "A", ">", "G(">>,
+  castfnnest   |-> <<"x", "as", "M", "<", "M", "<", "fn", "G(", "-", ">", "K", ">", ",", "V", ">">>,
   qpath        |-> <<"<", "A", "as", "T", "<", "B", ",", "X", ">", ">", "::", "X">>,
   qpathcall    |-> <<"<", "A", "as", "T", "<", "B", ",", "X", ">", ">", "::", "f", "G(">>,
   \* the opening `<` directly followed by punctuation (proc_macro spacing Joint): `<&A as T<B, X>>::X`
